@@ -39,12 +39,25 @@ Definition jinfo_of_cinfo (c : cinfo) : jinfo :=
   end.
 
 (* ------------------------------------------------------------------ unquote_string *)
-(* s.replace(/xy/g, z) for a two-character pattern: leftmost non-overlapping occurrences *)
-Fixpoint repl2 (x y z : ch) (s : str) : str :=
+(* as repaired by fix 80cd609 (finding D24): s.replace(/\\([\\nrt'"])/g, f) - ONE pass over the text, leftmost non-overlapping matches of a
+   backslash followed by one of  backslash n r t ' "  ; f maps n r t to LF CR TAB and every other escaped character to itself.
+   (Before the fix: two sequential passes that undid only the quote character and the backslash - the names of columns with an
+   escaped line break or tab came out with the backslash spelling.) *)
+Definition unesc_char (d : ch) : option ch :=
+  if N.eqb d BSL then Some BSL
+  else if N.eqb d 110 then Some LF
+  else if N.eqb d 114 then Some CR
+  else if N.eqb d 116 then Some TAB
+  else if N.eqb d APOS then Some APOS
+  else if N.eqb d QT then Some QT
+  else None.
+
+Fixpoint unesc (s : str) : str :=
   match s with
   | c :: t =>
       match t with
-      | d :: t' => if N.eqb c x && N.eqb d y then z :: repl2 x y z t' else c :: repl2 x y z t
+      | d :: t' => if N.eqb c BSL then match unesc_char d with Some z => z :: unesc t' | None => c :: unesc t end
+                   else c :: unesc t
       | [] => s
       end
   | [] => []
@@ -56,9 +69,7 @@ Definition unquote_string (s : str) : option str :=
   if Nat.ltb (length s) 2 then None
   else match s, last_opt s with
        | c :: _, Some e =>
-           if N.eqb c APOS && N.eqb e APOS then Some (repl2 BSL BSL BSL (repl2 BSL APOS APOS (inner s)))
-           else if N.eqb c QT && N.eqb e QT then Some (repl2 BSL BSL BSL (repl2 BSL QT QT (inner s)))
-           else None
+           if (N.eqb c APOS || N.eqb c QT) && N.eqb e c then Some (unesc (inner s)) else None
        | _, _ => None
        end.
 
